@@ -13,24 +13,38 @@ def tail(s, n=2500):
 
 def run(ctx):
     ctx.rule = ("(a) decision function: all combinations of offer/existing fields over small code sets, run on the real "
-                "Negotiation.compareOfferAndExisting and on the translated function; (b) traces: 18 scripted + seeded schedules of two real "
-                "Tubs (lookups with 1-3 hints, block deliveries, asynchronous cuts, close notifications, restarts, connector "
-                "time-outs, instant retries armed for the next errback), state compared with the Coq model after every step; non-trivial = "
-                "a trace in which a connection was established and (a cut, a restart, a time-out, a retry or a rejection) happened; "
+                "Negotiation.compareOfferAndExisting and on the translated function; (b) traces: 24 scripted + seeded schedules of two real "
+                "Tubs (lookups with 1-3 hints, block deliveries, asynchronous cuts, close notifications, restarts, forced connector "
+                "time-outs, passage of virtual time up to the next armed timer (connector timers and the listening ends' negotiation "
+                "timers fire), instant retries armed for the next errback, handle-old set on the master); after every step the real "
+                "state is compared with the Coq model: clock, brokers, master/slave tables, connector and its deadline, Broker creation "
+                "time, WHICH lookups wait (by number, with the time they were made) and which were answered when and how, link states "
+                "and queues; non-trivial = a connection was established and (a cut, a restart, a time-out, a retry or a rejection) happened; "
                 "(c) oracle runs: a fixed battery (independent of the seed), the corpus and seeded runs: byte- and block-granular "
                 "schedules to quiescence with cross-connects, parallel hints, cuts, restarts, black holes, one-sided cuts with redial "
-                "from the side that noticed (both dial directions, several rounds), lookups issued re-entrantly from callbacks/errbacks, "
-                "lookups queued before Tub.startService() (1-5, same Tub and a third Tub) followed by the start and the same races")
+                "from the side that noticed (both dial directions, several rounds, with and without a concurrent outbound negotiation to "
+                "a third Tub set up just before / within the first round trip of the redial), lookups issued re-entrantly from "
+                "callbacks/errbacks, lookups queued before Tub.startService() (1-5, same Tub and a third Tub) followed by the start and "
+                "the same races; an exception raised inside a timer callback is logged and the loop goes on, as in a reactor")
     ctx.assumptions = [
         "TLS is a no-op startTLS; peerFromTransport returns the peer Tub's certificate",
-        "the model delivers whole negotiation blocks; the GET/101 exchange is folded into the dial step (byte-granular "
-        "interleavings of all phases are exercised by the oracle runs only)",
+        "the model delivers whole negotiation blocks; the GET/101 exchange and the TCP connect are folded into the dial step "
+        "(byte-granular interleavings of all phases are exercised by the oracle runs only)",
         "incarnation strings are abstracted to integers compared for equality (the literal 'none' is 0)",
-        "vocabulary/version negotiation always succeeds here (C13 covers it); handle-old-duplicate-connections is off in "
-        "the two-Tub model (the translated decision function covers it)",
-        "virtual time: CONNECTION_TIMEOUT is the armed timer; the model's Timeout step is that timer firing",
-        "lookups queued before Tub.startService() are outside the Coq model (it counts waiters, it does not identify Deferreds): "
-        "that path is covered by the oracle (prestart family) and by a translated shape fact on the relay closure",
+        "vocabulary/version negotiation always succeeds here (C13 covers it)",
+        "virtual time is integer seconds; the model lets time pass only up to the next armed timer (timed-automaton semantics: a "
+        "timer fires AT its deadline), the harness advances the real clock in the same way; the model's Timeout step is a forced "
+        "early firing of the connector's timer (DelayedCall.reset(0))",
+        "handle-old-duplicate-connections is an input of the model's master step (passed with the age of the existing Broker to "
+        "the translated decision function); between two modern Tubs that branch is not reachable (not proved), the translated "
+        "function's old-peer theorems cover it",
+        "'not displaced by a redundant attempt' is proved for the translated decision function and for one step of the model from "
+        "ANY state given the offer's content; that every in-flight offer of the connected incarnation has that content in every "
+        "reachable state is not proved (false after a master restart: known finding) -- the `redundant` / `one-sided-cut` oracle "
+        "families check it on the real Tubs; quiescence requires both ends to have seen every loss (a half-open connection is "
+        "not quiescent)",
+        "lookups queued before Tub.startService() are outside the Coq model: that path is covered by the oracle (prestart family) "
+        "and by a translated shape fact on the relay closure; a third Tub exists only in the oracle runs",
     ]
     ok, log = ctx.coq_build(["props/C14.vo"])
     from harness import c14_impl as impl
@@ -136,6 +150,10 @@ def coq_op(o):
         return "%s %s" % (o[0], t[o[1]])
     if o[0] == "Cut":
         return "Cut %d" % o[1]
+    if o[0] == "Advance":
+        return "Advance %s" % coq_Z(o[1])
+    if o[0] == "SetHandleOld":
+        return "SetHandleOld %s" % ("None" if o[1] is None else "(Some %s)" % coq_Z(o[1]))
     return "%s %d %s" % (o[0], o[1], t[o[2]])
 
 
